@@ -3,7 +3,9 @@
 (* real code (harness/cmd/vh-race) against the table of LockDiscipline.tla.    *)
 (*                                                                            *)
 (* trace.ndjson, one event per line (all events carry the same fields):       *)
-(*   pair   comp cls m1 m2      ok = 0 iff the race detector reported, and the *)
+(*   pair   comp cls m1 m2 sh   sh = number of schedule shapes (LockTable!     *)
+(*                              Shapes) the job ran the pair in;               *)
+(*                              ok = 0 iff the race detector reported, and the *)
 (*                                   isolated re-run reproduced, a data race   *)
 (*                                   between two accesses made through the     *)
 (*                                   library while m1 || m2 ran on one object  *)
@@ -52,7 +54,8 @@ Pair == /\ More /\ Ev.ev = "pair"
            IN  /\ IF ~listed THEN Flag("unlisted-pair", Ev.m1 \o " || " \o Ev.m2)
                   ELSE IF judged /\ Ev.ok = 0 THEN Flag("race", Ev.m1 \o " || " \o Ev.m2)
                   ELSE UNCHANGED bad
-               /\ todoPairs' = todoPairs \ {<<Ev.comp, Ev.cls, Ev.m1, Ev.m2>>}
+               \* the obligation is met only when the pair ran in every schedule shape
+               /\ todoPairs' = IF Ev.sh >= Len(Shapes) THEN todoPairs \ {<<Ev.comp, Ev.cls, Ev.m1, Ev.m2>>} ELSE todoPairs
         /\ l' = l + 1 /\ UNCHANGED todoChokes
 
 Multi == /\ More /\ Ev.ev = "multi"
